@@ -123,6 +123,7 @@ type Engine struct {
 	version     int
 	nameSeen    map[string]int
 	divCache    map[string][2]*smt.Term
+	constTables map[string]bool
 	CheckNarrow bool // emit 'narrow' obligations for value-changing integer conversions
 	quiet       int
 	noAssume    int // inside quantifier bodies side facts would capture the bound variable
